@@ -7,6 +7,7 @@ import (
 	"net"
 	"strings"
 	"sync"
+	"sync/atomic"
 	"time"
 
 	oprom "github.com/Jigsaw-Code/outline-ss-server/prometheus"
@@ -141,7 +142,7 @@ func c15Run(c *vk.Ctx) {
 		})
 	}
 	// --- failure scenarios ---
-	scenarios := []string{"junk", "junk-fin", "replay-client", "reflect-server", "bad-address-type", "dest-loopback", "dest-private", "dest-mapped-private", "connect-refused", "client-rst-mid-relay", "cipher-error-mid-relay", "target-rst-mid-answer", "client-fin-immediately", "empty-then-close", "client-rst-while-target-streams"}
+	scenarios := []string{"junk", "junk-fin", "replay-client", "reflect-server", "bad-address-type", "dest-loopback", "dest-private", "dest-mapped-private", "connect-refused", "client-rst-mid-relay", "cipher-error-mid-relay", "target-rst-mid-answer", "client-fin-immediately", "empty-then-close", "client-rst-while-target-streams", "cipher-error-after-target-finished", "truncated-chunk-after-target-finished", "listener-closed-before-address"}
 	for i := 0; i < c.N(90, 450); i++ {
 		sc := scenarios[i%len(scenarios)]
 		jobs = append(jobs, func(jr *rand.Rand) bool { return c15Scenario(c, jr, env, keys, sc) })
@@ -283,6 +284,12 @@ func c15Scenario(c *vk.Ctx, r *rand.Rand, env *relayEnv, keys []KeySpec, sc stri
 	caseN := nextID(c.Batch)
 	ip := caseIP4(caseN & 0xffffff)
 	c.Progress("C15 scenario=%s key=%s case=%x", sc, k.ID, caseN)
+	if sc == "listener-closed-before-address" {
+		// a listener of its own, closed as soon as it has accepted this connection (a reload that
+		// drops the port while a client is connecting)
+		rig = StartTCPRig(keys, TCPRigOpts{Timeout: relayTimeout, CloseAfterAccepts: 1, Raw: r.Intn(2) == 0})
+		defer rig.Close(relayB)
+	}
 	cl, err := DialSS(rig.Addr4(), randSrc4(r), k, randBytes(r, ck.C.SaltSize))
 	if err != nil {
 		c.Inconclusive("dial: " + err.Error())
@@ -466,6 +473,61 @@ func c15Scenario(c *vk.Ctx, r *rand.Rand, env *relayEnv, keys []KeySpec, sc stri
 		cl.Conn.SetLinger(0) // RST while the proxy is writing to us
 		cl.Conn.Close()
 		ex.statuses, ex.authed = []string{"ERR_RELAY_CLIENT", "ERR_RELAY_TARGET"}, true
+	case "cipher-error-after-target-finished", "truncated-chunk-after-target-finished":
+		// termination order: the target answers and closes first, THEN the client's stream breaks
+		hub.On(ip.String(), func(tc *TargetConn) {
+			buf := make([]byte, 64)
+			tc.SetReadDeadline(time.Now().Add(c06B))
+			tc.Read(buf)
+			tc.Write([]byte("answer"))
+			tc.Close()
+		})
+		defer hub.Off(ip.String())
+		cl.WriteRaw(cl.Enc.Encode(append(sscodec.AddrIP(ip, hub.Port, false), 'q'), nil))
+		if got, err := cl.ReadAllPlain(time.Now().Add(c06B)); err != nil || string(got) != "answer" {
+			c.Inconclusive("scenario " + sc + ": the answer did not arrive")
+			return true
+		}
+		time.Sleep(20 * time.Millisecond)
+		bad := cl.Enc.Chunk(randBytes(r, 100), -1)
+		if sc == "cipher-error-after-target-finished" {
+			bad[len(bad)-3] ^= 4
+			cl.WriteRaw(bad)
+			time.Sleep(40 * time.Millisecond)
+			cl.Conn.Close()
+		} else {
+			cl.WriteRaw(bad[:len(bad)-7]) // the stream ends in the middle of a chunk
+			cl.Conn.CloseWrite()
+			watchClose(cl, time.Now().Add(c06B))
+		}
+		ex.statuses, ex.authed = []string{"ERR_RELAY_CLIENT"}, true
+	case "listener-closed-before-address":
+		var reached atomic.Int64
+		hub.On(ip.String(), func(tc *TargetConn) {
+			reached.Add(1)
+			buf := make([]byte, 64)
+			tc.SetReadDeadline(time.Now().Add(c06B))
+			n, _ := tc.Read(buf)
+			tc.Write(buf[:n])
+			tc.Close()
+		})
+		defer hub.Off(ip.String())
+		select {
+		case <-rig.done: // serving has stopped accepting (the handler keeps running)
+		case <-time.After(50 * time.Millisecond):
+		}
+		cl.WriteRaw(cl.Enc.Encode(append(sscodec.AddrIP(ip, hub.Port, false), 'w'), nil))
+		got, _ := cl.ReadAllPlain(time.Now().Add(c06B))
+		cl.Conn.Close()
+		rig.WaitDone(cl.Local, c06B)
+		ex.authed = true
+		if reached.Load() == 0 || string(got) != "w" {
+			// the client was dropped without its request reaching the target: any status but OK
+			ex.statuses = []string{"ERR_CONNECT"}
+			c.Count("dropped_by_listener_shutdown_before_dial", 1)
+		} else {
+			ex.statuses = []string{"OK"}
+		}
 	case "client-fin-immediately":
 		hub.On(ip.String(), func(tc *TargetConn) {
 			buf := make([]byte, 4096)
@@ -519,7 +581,7 @@ func init() {
 	vk.Register(&vk.Spec{
 		ID:    "C15",
 		Level: "exploration",
-		Rule: "clean exchanges from the relay case engine (all payload/chunking/half-close variety) + 14 failure scenarios (junk with/without FIN, empty, client replay, reflected server salt, bad address type, loopback/private/mapped-private destination, connect refused, client RST and cipher error mid-relay, target RST mid-answer, immediate client FIN), at concurrency 1/4/16/64, recording-wrapper and raw conns; metrics = tee(recorder, real Prometheus collectors); " +
+		Rule: "clean exchanges from the relay case engine (all payload/chunking/half-close variety) + 17 failure scenarios (junk with/without FIN, empty, client replay, reflected server salt, bad address type, loopback/private/mapped-private destination, connect refused, client RST and cipher error mid-relay, target RST mid-answer, immediate client FIN, broken client stream after the target has finished, listener closed between accept and dial), at concurrency 1/4/16/64, recording-wrapper and raw conns; metrics = tee(recorder, real Prometheus collectors); " +
 			"per connection: call-sequence oracle, status in the scenario's expected set, counters vs independent socket-side counts; at quiescence gathered families vs recorder sums; class = (scenario|mode, cipher, raw, size buckets)",
 		Assumptions: []string{"client RST mid-relay is expected as ERR_RELAY_CLIENT and an idle-client target RST as ERR_RELAY_TARGET (singletons: the other direction is clean by construction)"},
 		Batches:     func(t string) int { return map[string]int{"quick": 4, "thorough": 16}[t] },
@@ -527,7 +589,7 @@ func init() {
 		Timeout:     func(t string) time.Duration { return 25 * time.Minute },
 		Run: func(c *vk.Ctx) {
 			for _, s := range []string{"clean_exchanges_counters_equal", "quiescent_audits_passed", "scenario_ERR_CIPHER", "scenario_ERR_REPLAY_CLIENT", "scenario_ERR_REPLAY_SERVER", "scenario_ERR_READ_ADDRESS",
-				"scenario_ERR_ADDRESS_INVALID", "scenario_ERR_ADDRESS_PRIVATE", "scenario_ERR_CONNECT", "scenario_ERR_RELAY_CLIENT", "scenario_ERR_RELAY_TARGET"} {
+				"scenario_ERR_ADDRESS_INVALID", "scenario_ERR_ADDRESS_PRIVATE", "scenario_ERR_CONNECT", "scenario_ERR_RELAY_CLIENT", "scenario_ERR_RELAY_TARGET", "dropped_by_listener_shutdown_before_dial"} {
 				c.Require(s)
 			}
 			c15Run(c)
